@@ -21,7 +21,7 @@ def memword(a, dw):
 
 
 class ReaderHarness(Harness):
-    def __init__(self, fifo_depth=2, buffered=False, dw=16, naddr=3, wmin=3, rmin=6, qmax=None):
+    def __init__(self, fifo_depth=2, buffered=False, dw=16, naddr=3, wmin=3, rmin=6, qmax=None, decoupled=False):
         from litedram.common import LiteDRAMNativePort
         from litedram.frontend.dma import LiteDRAMDMAReader
         port = LiteDRAMNativePort("read", 4, dw)
@@ -29,7 +29,7 @@ class ReaderHarness(Harness):
         reads = Responder.reads([port]) + [dut.sink.ready, dut.source.valid, dut.source.data, dut.source.last]
         self.c = c = fhdl.compile_harness(dut, reads)
         self.dw = dw; self.depth = fifo_depth
-        self.resp = Responder(c, [port], wmin=wmin, rmin=rmin, qmax=qmax or fifo_depth + 2, mem_init=lambda a: memword(a, dw))
+        self.resp = Responder(c, [port], wmin=wmin, rmin=rmin, qmax=qmax or fifo_depth + 2, mem_init=lambda a: memword(a, dw), decoupled=decoupled)
         ii = c.ii
         self.i_valid = ii[dut.sink.valid]; self.i_addr = ii[dut.sink.address]; self.i_last = ii[dut.sink.last]; self.i_ready = ii[dut.source.ready]
         self.r_sready = c.rd(dut.sink.ready); self.r_valid = c.rd(dut.source.valid); self.r_data = c.rd(dut.source.data); self.r_last = c.rd(dut.source.last)
@@ -46,7 +46,7 @@ class ReaderHarness(Harness):
         return [(p, cr, r) for p in prod for cr in (1, 0) for r in self.resp.menu(rs)]
 
     def describe(self, ch):
-        p, cr, (rb, serve) = ch
+        p, cr, rch = ch; rb, serve = rch[0], rch[1]
         return "%s | consumer.ready=%d | cmd.ready=%d serve=%s" % ("-" if p is None else "addr %d last %d" % p, cr, rb, list(serve))
 
     def drive(self, S, E, ch):
@@ -84,8 +84,7 @@ class ReaderHarness(Harness):
             if self.r_last(S, I, O) != l: self.report("dma.reader_last", "end-of-stream mark %d on the word of address %d, expected %d" % (self.r_last(S, I, O), a, l))
             self.cov["words"] = self.cov.get("words", 0) + 1
         ev = 0
-        el = self.resp.eligible(rs[0])
-        coop = cr == 1 and rch[0] == 1 and rch[1] == ((el[0],) if el else ())
+        coop = cr == 1 and rch == self.resp.default_choice(rs)
         if coop and (pend is not None or exp or rs[0]): ev |= EV_OUT
         if prog: ev |= EV_PROG
         return (item, exp, rs2), ev
@@ -96,7 +95,7 @@ class ReaderHarness(Harness):
 class WriterHarness(Harness):
     M = 8
 
-    def __init__(self, fifo_depth=2, buffered=False, dw=16, naddr=3, wmin=3, rmin=6, qmax=None):
+    def __init__(self, fifo_depth=2, buffered=False, dw=16, naddr=3, wmin=3, rmin=6, qmax=None, decoupled=False):
         from litedram.common import LiteDRAMNativePort
         from litedram.frontend.dma import LiteDRAMDMAWriter
         port = LiteDRAMNativePort("write", 4, dw)
@@ -104,7 +103,7 @@ class WriterHarness(Harness):
         reads = Responder.reads([port]) + [dut.sink.ready]
         self.c = c = fhdl.compile_harness(dut, reads)
         self.dw = dw; self.depth = fifo_depth
-        self.resp = Responder(c, [port], wmin=wmin, rmin=rmin, qmax=qmax or fifo_depth + 2)
+        self.resp = Responder(c, [port], wmin=wmin, rmin=rmin, qmax=qmax or fifo_depth + 2, decoupled=decoupled)
         ii = c.ii
         self.i_valid = ii[dut.sink.valid]; self.i_addr = ii[dut.sink.address]; self.i_data = ii[dut.sink.data]
         self.r_sready = c.rd(dut.sink.ready)
@@ -124,7 +123,7 @@ class WriterHarness(Harness):
         return [(p, r) for p in prod for r in self.resp.menu(rs)]
 
     def describe(self, ch):
-        p, (rb, serve) = ch
+        p, rch = ch; rb, serve = rch[0], rch[1]
         return "%s | cmd.ready=%d serve=%s" % ("-" if p is None else "pair addr %d" % p, rb, list(serve))
 
     def drive(self, S, E, ch):
@@ -162,8 +161,7 @@ class WriterHarness(Harness):
             # command and FIFO push happen in the same cycle by design: a pair accepted from the sink must be at the memory port at once
             self.report("dma.writer_pair_split", "pair accepted from the sink without its write command being accepted")
         ev = 0
-        el = self.resp.eligible(rs[0])
-        coop = rch[0] == 1 and rch[1] == ((el[0],) if el else ())
+        coop = rch == self.resp.default_choice(rs)
         if coop and (pend is not None or ecmd or edat or rs[0]): ev |= EV_OUT
         if prog: ev |= EV_PROG
         return (a, seq, ecmd, edat, rs2), ev
@@ -181,7 +179,9 @@ def configs(tier):
     cs = []
     if tier == "quick":
         cs += [("reader-d2", "build_reader", dict(fifo_depth=2)), ("reader-d3-buffered", "build_reader", dict(fifo_depth=3, buffered=True, naddr=1)),
-               ("writer-d2", "build_writer", dict(fifo_depth=2)), ("writer-d4-buffered", "build_writer", dict(fifo_depth=4, buffered=True, naddr=2))]
+               ("writer-d2", "build_writer", dict(fifo_depth=2)), ("writer-d4-buffered", "build_writer", dict(fifo_depth=4, buffered=True, naddr=2)),
+               # the same cores on a port behind stream buffering (CDC / converted port): write data ready independent of commands, read data with back-pressure
+               ("reader-d2-streamport", "build_reader", dict(fifo_depth=2, naddr=2, decoupled=True)), ("writer-d2-streamport", "build_writer", dict(fifo_depth=2, naddr=2, decoupled=True))]
     else:
         for d in (2, 3, 4, 8):
             for b in (False, True):
